@@ -68,9 +68,28 @@ def one_case(ctx, e, ds, ib, iu, pos, ev_line, gen_line, fold_line):
     case = {"kind": "sandbox", "expr": src, "ib": ib, "iu": iu, "position": pos, "data_seed": ds, "tree": repr(e)}
     f = X.split_fields(ev_line)
     spec = X.canon_res(f["S"])
-    if spec == ("err", "opaque") or "BIG" in f["SL"] or "(F " in f["SL"]:
+    if "BIG" in f["SL"] or "(F " in f["SL"]:
         ctx.case()
         ctx.count("opaque")
+        return
+    if spec == ("err", "opaque"):
+        # the model stops at an operation it cannot compute (printf-style %, floats ...), the engine goes on: the
+        # hook applications the model predicts UP TO that point must be a prefix of what the hooks saw
+        want_prefix = [ev for ev in X.canon_log(f["SL"]) if ev[0] != "call"]
+        log = []
+        env = make_env(ib, iu, log)
+        data = X.make_data(random.Random(ds), [])
+        tsrc = template_for(pos, src)
+        rr = X.real_render(env, tsrc, data)
+        got = X.canon_real_log(log)
+        ctx.case(key=(tuple(ib), tuple(iu), pos, src) if want_prefix else None)
+        ctx.count("opaque_prefix_checked")
+        if not (rr[0] == "err" and rr[1].startswith("compile:")) and got[:len(want_prefix)] != want_prefix:
+            ctx.reject(dict(case, want_prefix=repr(want_prefix)[:500], got=repr(got)[:500]),
+                       f"an intercepted operator application did not reach the hook: predicted first {len(want_prefix)} applications, observed {len(got)}",
+                       "C20:" + pos + ":" + ",".join(ib + iu) + ":" + src)
+        else:
+            ctx.validated()
         return
     want_log = [ev for ev in X.canon_log(f["SL"]) if ev[0] != "call"]
     st = X.canon_text(f["ST"])
@@ -144,7 +163,14 @@ def run(ctx):
              ("B", "pow", ("B", "pow", ("C", 2), ("C", 3)), ("C", 2)), ("B", "sub", ("B", "floordiv", ("C", 7), ("C", 2)), ("B", "mod", ("C", 7), ("C", 2))),
              ("B", "add", ("C", "a"), ("C", "b")), ("B", "mul", ("C", "ab"), ("C", 2)), ("?", ("C", True), ("B", "add", ("C", 1), ("C", 1)), ("B", "sub", ("C", 1), ("C", 1))),
              ("&", ("C", 0), ("B", "add", ("C", 1), ("C", 1))), ("cmp", ("B", "add", ("C", 1), ("C", 1)), [("lt", ("B", "mul", ("C", 2), ("C", 2)))]),
-             ("B", "div", ("C", 1), ("C", 0)), ("B", "add", ("N", "u0"), ("C", 1))]
+             ("B", "div", ("C", 1), ("C", 0)), ("B", "add", ("N", "u0"), ("C", 1)),
+             # every operand type an operator accepts, constant on both sides
+             ("B", "mod", ("C", "%s-%s"), ("T", [("C", 1), ("C", 2)])), ("B", "mod", ("C", "%05d"), ("C", 42)), ("B", "mod", ("C", "a%sb"), ("C", "x")),
+             ("B", "mod", ("F", ("C", "<%s>"), "safe", []), ("C", "<")), ("B", "mod", ("C", "%s"), ("N", "i0")), ("B", "mod", ("N", "s0"), ("C", 1)),
+             ("B", "add", ("L", [("C", 1)]), ("L", [("C", 2)])), ("B", "add", ("T", [("C", 1)]), ("T", [("C", 2)])), ("B", "add", ("F", ("C", "<"), "safe", []), ("C", ">")),
+             ("B", "mul", ("C", 2), ("C", "ab")), ("B", "mul", ("L", [("C", 1)]), ("C", 2)), ("B", "mul", ("F", ("C", "<"), "safe", []), ("C", 2)),
+             ("B", "sub", ("C", "a"), ("C", 1)), ("B", "pow", ("C", 2), ("C", "a")), ("B", "floordiv", ("C", 7), ("C", 0)), ("U", "neg", ("C", "a")), ("U", "pos", ("C", True)),
+             ("F", ("N", "u0"), "default", [("B", "mod", ("C", "%s!"), ("C", 1))]), ("~", [("B", "mod", ("C", "%d"), ("C", 3)), ("B", "mul", ("C", "-"), ("C", 3))])]
     cases = []
     k = 0
     for ib, iu in subsets:
